@@ -255,6 +255,29 @@ theorem integrate_gradient_recovers_field {ι : Type*} [Fintype ι] [DecidableEq
       exact integrate_gradient_mode (kx k) (ky k) (P.F φ k) (by tauto)
   rw [hThat, map_sub, map_smul, P.inv_left]
 
+/-- For the concrete DFT (Mathlib's `ZMod.dft`) the inverse transform of the zero-mode delta is the constant `1/N` … -/
+theorem zmod_inv_delta (N : ℕ) [NeZero N] : (zmodPair N).Finv (Pi.single 0 1) = fun _ => (1 : ℂ) / N := by
+  funext k
+  show (ZMod.dft (N := N) (E := ℂ)).symm (Pi.single 0 1) k = _
+  rw [ZMod.invDFT_apply]
+  simp [Pi.single_apply, Finset.sum_ite_eq']
+
+/-- … so there the integrated gradient is **the generating field minus its mean** (the additive constant is explicit). -/
+theorem integrate_gradient_recovers_field_up_to_mean (N : ℕ) [NeZero N] (kx ky : ZMod N → ℝ)
+    (hk0 : ∀ k, (kx k = 0 ∧ ky k = 0) ↔ k = 0) (φ gx gy : ZMod N → ℂ)
+    (hgx : ∀ k, (zmodPair N).F gx k = 2 * Real.pi * Complex.I * kx k * (zmodPair N).F φ k)
+    (hgy : ∀ k, (zmodPair N).F gy k = 2 * Real.pi * Complex.I * ky k * (zmodPair N).F φ k) :
+    (zmodPair N).Finv (fun k => igThat ((zmodPair N).F gx k) ((zmodPair N).F gy k) (kx k) (ky k)
+        (if igK2 (kx k) (ky k) = 0 then (1e-12 : ℂ) else igK2 (kx k) (ky k)))
+      = fun j => φ j - (∑ i, φ i) / N := by
+  rw [integrate_gradient_recovers_field (zmodPair N) kx ky 0 hk0 φ gx gy hgx hgy, zmod_inv_delta]
+  funext j
+  have hdc : (zmodPair N).F φ 0 = ∑ i, φ i := by
+    show ZMod.dft φ 0 = _
+    rw [ZMod.dft_apply_zero]
+  simp only [Pi.sub_apply, Pi.smul_apply, smul_eq_mul, hdc]
+  ring
+
 /-! ### non-vacuity -/
 example : comX 2 2 (fun i j => ((2 * i + j + 1 : Nat) : Rat)) (fun i => if i = 0 then -1 else 1) = 4 := by decide +kernel
 example : centerOfMass 3 3 (fun i j => if i = 1 ∧ j = 0 then 1 else 0) (1/2) (1/2) false "1/Å" = .ok (1/2, 0) := by
